@@ -44,11 +44,13 @@ type RunSpec struct {
 
 // Harness features added after the first regression tapes were recorded.
 const (
-	FeatNetWriteYield = 1 // optional schedule point at the beginning of a transport write
-	FeatCutAtRegister = 2 // C05 / C11 hub: reset placed at Hub.registerConnection
-	FeatEarlyResolve  = 4 // C17: services resolved while Start is still running
-	FeatCrash         = 8 // C05 / C11 hub: process crash and restart disturbances
-	FeatAll           = 15
+	FeatNetWriteYield  = 1  // optional schedule point at the beginning of a transport write
+	FeatCutAtRegister  = 2  // C05 / C11 hub: reset placed at Hub.registerConnection
+	FeatEarlyResolve   = 4  // C17: services resolved while Start is still running
+	FeatCrash          = 8  // C05 / C11 hub: process crash and restart disturbances
+	FeatLateRun        = 16 // SHIP2 / hub rig: Run() of a connection delayed after its creation (reader already active)
+	FeatWithdrawInDial = 32 // C01 hub: the stored pairing is withdrawn while the hub's own dial is in flight
+	FeatAll            = 63
 )
 
 // Feat reports whether the run uses harness feature bit.
